@@ -106,9 +106,34 @@ def lean_sources():
     return sorted(res)
 
 
-def forbidden_scan():
+def module_file(mod):
+    return os.path.join(LEAN, *mod.split(".")) + ".lean"
+
+
+def import_closure(roots):
+    """Lean source files of the project reachable through `import GV.…`/`import Drivers.…` from the root modules."""
+    seen, todo = {}, list(roots)
+    while todo:
+        m = todo.pop()
+        if m in seen:
+            continue
+        f = module_file(m)
+        if not os.path.exists(f):
+            continue
+        seen[m] = f
+        for line in strip_comments(open(f).read()).split("\n"):
+            mm = re.match(r"\s*(?:public\s+)?import\s+(GV\.[\w.]+|Drivers\.[\w.]+)", line)
+            if mm:
+                todo.append(mm.group(1))
+    return seen
+
+
+def forbidden_scan(roots=None):
+    """sorry/admit/axiom/native_decide/... in the Lean sources (comments stripped) of the import closure of `roots`
+    (all project sources when roots is None)."""
     hits = []
-    for f in lean_sources():
+    files = sorted(import_closure(roots).values()) if roots else lean_sources()
+    for f in files:
         body = strip_comments(open(f).read())
         for m in FORBIDDEN.finditer(body):
             hits.append("%s: %s" % (os.path.relpath(f, LEAN), m.group(0).strip()))
@@ -172,7 +197,7 @@ def check_proofs(pid, theorems, tier, extra_targets=(), module=None):
     theorems = [t if t.startswith("GV.") else "%s.%s" % (module, t) for t in theorems]
     r = ProofResult()
     r.obligations = list(theorems)
-    r.forbidden = forbidden_scan()
+    r.forbidden = forbidden_scan([module, "Drivers.%s" % pid])
     ok, blog = lake_build([module, "gvdriver_%s" % pid.lower()] + list(extra_targets))
     r.build_ok = ok
     r.build_log = blog[-6000:]
